@@ -51,6 +51,20 @@ fn meta(tag: &str) -> HashMap<String, String> {
 /// Is `got` an answer a fresh, uncached search could give NOW (modulo ties)?  Returns (why not, reference ids != live ids).
 fn judge(engine: &TieredEngine, live: &BTreeMap<u64, Vec<f32>>, scope: u64, q: &[f32], k: usize, got: &[(u64, f32)]) -> (Option<String>, bool) {
     let nlive = live.len();
+    // An answer identical to what an uncached search with the SAME k returns right now is not stale, whatever
+    // the index's recall is (tombstones of overwritten versions crowding a small candidate list is C06 / C16
+    // territory, not the cache's).
+    // (an explicit ef equal to the configured default bypasses the cache and searches with exactly the parameters
+    // of a default search; 512 is the exhaustive setting)
+    let served: Vec<(u64, u32)> = got.iter().map(|(i, d)| (*i, d.to_bits())).collect();
+    for ef in [TieredEngineConfig::default().hnsw_ef_search, 512] {
+        if let Ok((same_k, _)) = engine.knn_search_with_ef_detailed_scoped(q, k, Some(ef), scope) {
+            let fresh: Vec<(u64, u32)> = same_k.iter().map(|x| (x.doc_id, x.distance.to_bits())).collect();
+            if fresh == served {
+                return (None, false);
+            }
+        }
+    }
     let reference: Vec<(u64, f32)> = if nlive == 0 {
         vec![]
     } else {
